@@ -309,8 +309,8 @@ class DT(Inverter):
         raise InverterError("Operation not supported, inverter has no batteries.")
 
     def _get_sensor(self, sensor_id: str) -> Sensor | None:
-        if self._sensors_map is None:
-            self._sensors_map = {s.id_: s for s in self.sensors()}
+        # sensors() depends on capability flags that may change between calls
+        self._sensors_map = {s.id_: s for s in self.sensors()}
         return self._sensors_map.get(sensor_id)
 
     def sensors(self) -> tuple[Sensor, ...]:
